@@ -1246,6 +1246,16 @@ GDelete(a, f) ==
   /\ loc' = [loc EXCEPT ![a].cand = @ \ {f}]
   /\ UNCHANGED <<hint, metas, metaTime, lists, mans, ftime, markers, mtimeM, clock, lockHolder, rlock, pc, opi, att, faults, lease, commitLog, serial, tsOf, sidOfOp, outcomes, reads, initBody, joined>>
 
+\* another collector removed the candidate after this one had stat'ed it: deleting a file that is gone succeeds silently
+GDeleteGone(a, f) ==
+  /\ Role[a] = "collector"
+  /\ pc[a] \in {"g_sweepd", "g_sweepm"}
+  /\ f \in CandNow(a)
+  /\ f \notin present
+  /\ f \notin loc[a].reach /\ f \notin loc[a].prot
+  /\ loc' = [loc EXCEPT ![a].cand = @ \ {f}]
+  /\ UNCHANGED <<storageVars, clock, lockHolder, rlock, pc, opi, att, faults, lease, ghostVars>>
+
 GReturn(a) ==
   /\ Role[a] = "collector"
   /\ \/ pc[a] = "g_sweepm" /\ SweepComplete(a) /\ ~loc[a].esc
@@ -1303,7 +1313,7 @@ CollectorNext(a) ==
   \/ GStampM(a, NowVal) \/ GLoadMarkers(a)
   \/ \E f \in loc[a].mseen : GSweepMarker(a, f)
   \/ GStamp(a, NowVal) \/ GList(a)
-  \/ \E f \in loc[a].cand : GDelete(a, f)
+  \/ \E f \in loc[a].cand : GDelete(a, f) \/ GDeleteGone(a, f)
   \/ GReturn(a)
   \/ /\ faults > 0
      /\ faults' = faults - 1
